@@ -169,13 +169,18 @@ Definition distances (g : graph) (src : nat) : res (list (nat * Q)) :=
 Definition oarc (a : arc) : out := OL [onat (e_u a); onat (e_v a); onat (fst (e_k a)); onat (snd (e_k a)); oq (e_w a)].
 Definition ores {X} (f : X -> out) (r : res X) : out := match r with Ok x => f x | Raise s => OErr s end.
 Definition ograph (g : graph) : out := OL [olist onat (g_nodes g); olist oarc (g_arcs g)].
-(* [graph; pandapower connected_components with notrav list cc_notrav; distances from src; every arc ends at a node; sym_arcs] *)
+(* [graph; pandapower connected_components with notrav list cc_notrav; distances from src; every arc ends at a node; sym_arcs;
+   build-stage graph] *)
 Definition no_dangling (g : graph) : bool :=
   forallb (fun a => mem Nat.eq_dec (e_u a) (g_nodes g) && mem Nat.eq_dec (e_v a) (g_nodes g)) (g_arcs g).
+(* the graph at the end of the build stage (before any node is removed) — observed on the real code by calling
+   create_nxgraph with all buses in service and without nogobuses / notravbuses *)
+Definition build_stage (o : opts) (n : net) (lens : list Q) : res graph :=
+  bind (raw_edges o n lens) (fun es => Ok (build_graph o n es)).
 Definition run_c26 (o : opts) (n : net) (lens : list Q) (cc_notrav : list nat) (src : nat) : out :=
   match create_nxgraph o n lens with
-  | Raise s => OL [OErr s; ONone; ONone; ONone; ONone]
+  | Raise s => OL [OErr s; ONone; ONone; ONone; ONone; ores ograph (build_stage o n lens)]
   | Ok g => OL [ograph g; olist (olist onat) (connected_components g cc_notrav);
                 ores (olist (fun p : nat * Q => OL [onat (fst p); oq (snd p)])) (distances g src); OB (no_dangling g);
-                OB (sym_arcs g)]
+                OB (sym_arcs g); ores ograph (build_stage o n lens)]
   end.
